@@ -107,3 +107,16 @@ Theorem C09_udp_announce_end_to_end : forall mac t u ops clock ip packet txid v6
               da_leechers := i; da_seeders := c; da_peers := map endpoint ps |}.
 Proof. exact udp_announce_end_to_end. Qed.
 Print Assumptions C09_udp_announce_end_to_end.
+
+(* end to end, scrape: for ANY store state, the one datagram answering an accepted UDP scrape decodes to action 2,
+   the request's transaction id and one (seeders, completed = 0, leechers) triple per requested infohash in
+   request order (repeats included), read from the swarms of the requester's family; the store is unchanged *)
+Theorem C09_udp_scrape_end_to_end_step : forall mac (t : tcfg) (u : ucfg) sp clock ip packet txid af ihs,
+  UdpParse.handle_udp mac (uc_key u) (uc_skew u) clock (uc_opts u) ip packet = UdpParse.UScrape txid af ihs ->
+  exists d, udp_step spec_if mac t u sp clock ip packet = Some (sp, [d]) /\
+       bep15_decode_scrape d =
+         Some (2, sub 12 16 packet,
+               map (fun ih => let '(c, i) := st_scrape spec_if ih (v6_of af) sp in
+                          {| dt_seeders := c; dt_completed := 0; dt_leechers := i |}) ihs).
+Proof. exact udp_scrape_end_to_end_step. Qed.
+Print Assumptions C09_udp_scrape_end_to_end_step.
